@@ -180,3 +180,31 @@ def show_spec(spec: dict | None) -> Any:
 def fires_at(spec: dict) -> float | None:
     """offset of the first notification of the spec (None = never)"""
     return spec["msgs"][0][0] if spec["msgs"] else None
+
+
+def frozen_scheduler(lab: Lab) -> Any:
+    """A second, fully working scheduler object whose CLOCK IS FROZEN (it always reads the lab's epoch + 1000 s): it runs everything
+    through the lab's scheduler at the same virtual instants, so work that legitimately falls to the subscribe-time scheduler behaves
+    as before, while an operator that reads the time from it instead of from the scheduler it was given gets constant readings."""
+    import datetime as dt
+    from reactivex.scheduler.scheduler import Scheduler
+    inner = lab.ts
+    frozen = clock_base(lab) + dt.timedelta(seconds=1000)
+
+    class Frozen(Scheduler):
+        @property
+        def now(self) -> Any:
+            return frozen
+
+        def _wrap(self, action: Any) -> Any:
+            return lambda sch, st=None: action(self, st)
+
+        def schedule(self, action: Any, state: Any = None) -> Any:
+            return inner.schedule(self._wrap(action), state)
+
+        def schedule_relative(self, duetime: Any, action: Any, state: Any = None) -> Any:
+            return inner.schedule_relative(duetime, self._wrap(action), state)
+
+        def schedule_absolute(self, duetime: Any, action: Any, state: Any = None) -> Any:
+            return inner.schedule_absolute(duetime, self._wrap(action), state)
+    return Frozen()
